@@ -26,6 +26,10 @@ THEOREMS = ['sanitise_printable', 'sanitise_pointwise', 'sanitise_fixed_iff', 'v
             'multi_version', 'multi_version_199', 'protocol_is_min', 'collapse_joinBlanks', 'comments_words', 'parse_wf', 'shown_printable', 'banner_roundtrip', 'roundtrip_excluded_point',
             'blank_not_banner', 'segmentation_independence', 'segmentation_any_two', 'segmentation_whole', 'header_separation',
             'header_separation_unterminated', 'header_never_banner', 'banner_is_a_line', 'd17_repaired']
+# functions / statement blocks of the code whose Lean definitions are regenerated from the source on every run (harness/translate_logic.py);
+# `GenLogic.<name>_eq_model` (lean/SshAudit/Props/GenLogic*.lean) ties each to the hand-written model function the theorems above are about
+GEN_LOGIC = ['is_print_ascii_char']
+
 TECHNIQUE = ('Lean 4 theorems (structural induction over texts, byte strings and recv sequences; kernel-evaluated witnesses) about a hand-written '
              'deterministic recogniser equivalent to RX_BANNER + differential correspondence with banner.py / utils.py / readbuf.py / ssh_socket.py; '
              'independent by-construction oracle on the real code incl. whole audits over an in-process fake network')
